@@ -1,12 +1,12 @@
 /-
 END TO END: THE GO SOURCE ITSELF SATISFIES THE SPECIFICATION.
 The source tie (Props/GoSrc.lean, Props/GoCal.lean: the translated Go functions compute the model's functions) composed
-with the property theorems about the model (Props/C15.lean, Props/C16.lean): statements of C15, C16 and C02 about the
+with the property theorems about the model (Props/C16.lean): statements of C15, C16 and C02 about the
 functions `klogv extract` produced from klog/time.go, range.go, date.go and service/period/*.go on this run — the model no
 longer appears in them.  `goTimeOffset`, `GoTimeWF`, `GoDateValid`, `goDayNumber` (KlogV/GoSem/SpecDefs.lean) read a translated value.
 Property theorems only (helper lemmas: KlogV/Lemmas/GoSpec.lean).
 -/
-import KlogV.Lemmas.GoSpec
+import KlogV.Lemmas.GoSpec16
 namespace KlogV.GoTie
 open KlogV.Go
 
@@ -42,49 +42,7 @@ theorem go_range (s e : GoSrc.time) (f : GoSrc.RangeFormat) (hs : GoTimeWF s) (h
 theorem go_midnightOffset (t : GoSrc.time) (ht : GoTimeWF t) : t.MidnightOffset = .ok ⟨goTimeOffset t, ⟨false, 0⟩⟩ :=
   GoL.go_midnightOffset t ht
 
-/-! ## C15: the calendar -/
-
-/-- C15 (`PlusDays`): the date that many days later by day number, keeping the notation; a panic exactly outside
-0000-01-01 … 9999-12-31 (finding D11) — about `(*date).PlusDays` of the Go source. -/
-theorem go_plusDays (x : GoCal.date) (n : Int) (hx : GoDateValid x) :
-    ((0 ≤ goDayNumber x + n ∧ goDayNumber x + n ≤ 3652424) →
-        ∃ r, x.PlusDays n = .ok r ∧ GoDateValid r ∧ goDayNumber r = goDayNumber x + n ∧ r.format = x.format) ∧
-    (¬ (0 ≤ goDayNumber x + n ∧ goDayNumber x + n ≤ 3652424) → (x.PlusDays n).res = .panic) :=
-  GoL.go_plusDays x n hx
-
-/-- C15 (weekday): Monday = 1 … Sunday = 7 of the proleptic Gregorian calendar (0000-01-01 is a Saturday) -/
-theorem go_weekday (x : GoCal.date) (hx : GoDateValid x) :
-    x.Weekday = .ok ((goDayNumber x + 5) % 7 + 1) :=
-  GoL.go_weekday x hx
-
-/-- C15 (week): `Week.Period()` is Monday … Sunday around the date, or a panic when that week leaves the calendar -/
-theorem go_week_period (x : GoCal.date) (hx : GoDateValid x) (p : GoCal.periodData)
-    (hp : GoCal.Week.Period ⟨x⟩ = .ok p) :
-    GoDateValid p.since ∧ GoDateValid p.until_ ∧ p.since.Weekday = .ok 1 ∧ p.until_.Weekday = .ok 7 ∧
-      goDayNumber p.until_ = goDayNumber p.since + 6 ∧ goDayNumber p.since ≤ goDayNumber x ∧ goDayNumber x ≤ goDayNumber p.until_ :=
-  GoL.go_week_period x hx p hp
-
-/-- C15 (month): `Month.Period()` runs from the first to the last day of the date's month -/
-theorem go_month_period (x : GoCal.date) (hx : GoDateValid x) :
-    GoCal.Month.Period ⟨x⟩ =
-      .ok ⟨⟨x.year, x.month, 1, ⟨true⟩⟩, ⟨x.year, x.month, daysInInt x.year x.month, ⟨true⟩⟩⟩ :=
-  GoL.go_month_period x hx
-
-/-- C15 (quarter): the quarter is ⌈month / 3⌉ and `Quarter.Period()` its three months -/
-theorem go_quarter_period (x : GoCal.date) (hx : GoDateValid x) :
-    x.Quarter = .ok ((x.month + 2) / 3) ∧
-    GoCal.Quarter.Period ⟨x⟩ =
-      .ok ⟨⟨x.year, 3 * ((x.month + 2) / 3) - 2, 1, ⟨true⟩⟩,
-           ⟨x.year, 3 * ((x.month + 2) / 3), daysInInt x.year (3 * ((x.month + 2) / 3)), ⟨true⟩⟩⟩ :=
-  GoL.go_quarter_period x hx
-
-/-- C15 (year) -/
-theorem go_year_period (x : GoCal.date) (hx : GoDateValid x) :
-    GoCal.Year.Period ⟨x⟩ = .ok ⟨⟨x.year, 1, 1, ⟨true⟩⟩, ⟨x.year, 12, 31, ⟨true⟩⟩⟩ :=
-  GoL.go_year_period x hx
-
 /-- non-vacuity -/
-example : GoDateValid ⟨2024, 2, 29, ⟨true⟩⟩ := by decide
 example : GoTimeWF ⟨23, 59, 1, ⟨false⟩⟩ := by decide
 
 end KlogV.GoTie
